@@ -129,6 +129,9 @@ def _catches(htype, kind: str) -> bool:
     return False
 
 
+_GEN_CACHE: Dict[int, bool] = {}
+
+
 def _own_nodes(fn):
     """Nodes of a function body excluding nested function / class definitions and lambdas."""
     stack = list(fn.body)
@@ -387,7 +390,9 @@ class Folder:
                 env[p] = dc[id(dmap[p])]
             else:
                 raise Unsupported(f'missing argument {p} for {fn.name}')
-        is_gen = any(isinstance(x, (ast.Yield, ast.YieldFrom)) for x in _own_nodes(fn))
+        is_gen = _GEN_CACHE.get(id(fn))
+        if is_gen is None:
+            is_gen = _GEN_CACHE[id(fn)] = any(isinstance(x, (ast.Yield, ast.YieldFrom)) for x in _own_nodes(fn))
         if is_gen:
             # a generator function: evaluated eagerly, its yields collected in order (sound when the consumer does not interleave
             # effects on state the generator reads - the consumers in this repository only iterate)
